@@ -742,6 +742,11 @@ class Screen(BaseScreen, RealTerminal):
             if e.args[0] != 4:
                 raise
 
+        if self._resized:
+            # SIGWINCH arrived while the frame was being written: the handler has dropped screen_buf
+            # and nothing may be assumed about what the resized terminal shows
+            return
+
         self.screen_buf = sb
         self._screen_buf_canvas = canvas
 
